@@ -24,11 +24,15 @@ Proof. exact (exotic_levels sha256 sha256_len). Qed.
 Print Assumptions C02_levels.
 
 (* replacing a level-0 subtree t, j Merkle cells below the root, by the pruned branch that carries
-   its hash and depth leaves the level-0 hash and depth of the enclosing tree unchanged *)
+   its hash and depth leaves the level-0 hash and depth of the enclosing tree unchanged.
+   The depth of t must fit the 16-bit depth field of the pruned branch: without
+   [s_depth_at sha256 t 0 < 65536] the statement is false already for K = Hole (the branch then
+   stores the depth mod 65536). *)
 Theorem C02_prune_invariance : forall K t j,
   ctx_nonpruned K = true -> merkle_depth K = j -> (j <= 2)%nat -> s_mask t = 0 ->
+  s_depth_at sha256 t 0 < 65536 ->
   s_hd sha256 (plug K (s_prune sha256 j t)) 0 = s_hd sha256 (plug K t) 0.
-Proof. exact (prune_invariance sha256 sha256_len). Qed.
+Proof. exact (prune_invariance sha256 sha256_len sha256_ok). Qed.
 Print Assumptions C02_prune_invariance.
 
 (* an ordinary context may use any pruned branch whose first stored hash/depth are those of t *)
